@@ -125,7 +125,10 @@ Remove(t, p) ==
 RemoveAll(t, p) ==
   IF p = Root THEN Fail("ROOTANY", p, t, "removeall/root")
   ELSE LET a == AncErr(t, p) IN
-    IF a = "ENOTDIR" THEN Fail("ENOTDIR", p, t, "removeall/through-file")
+    IF a = "ENOTDIR" THEN
+         \* os.RemoveAll opens the parent directory first: when the parent itself lies below a regular file the
+         \* error names the parent, otherwise the path
+         Fail("ENOTDIR", IF Len(p) >= 2 /\ AncErr(t, Parent(p)) = "ENOTDIR" THEN Parent(p) ELSE p, t, "removeall/through-file")
     ELSE IF a = "ENOENT" \/ ~Has(t, p) THEN Ok(None, t, "removeall/missing")
     ELSE Ok(None, Touch(Del(t, Under(t, p)), p),
             IF Kids(t, p) = {} THEN "removeall/ok-leaf" ELSE "removeall/ok-subtree")
